@@ -373,7 +373,7 @@ def run_history(ctx, kind, name, hist):
             ctx.violation("C13:%s:%s:%s:%s" % (k, kind, name, ev[0]), msg,
                           kind=kind, name=name, history=hist,
                           real=repr(o1), twin=repr(o2))
-        nviol = len(ctx.violations)
+        nviol = ctx.nviol
         if ev[0] == "define_sub":
             model.has_sub = True
         elif not model.has_sub and len(ev) > 1 and ev[1] == "b" and \
@@ -406,7 +406,7 @@ def run_history(ctx, kind, name, hist):
             model.ro_written[ev[1]] = False
         if ev[0] == "del" and o1[0] == "ok":
             model.ro_written[ev[1]] = False
-        if len(ctx.violations) != nviol:
+        if ctx.nviol != nviol:
             return False, None
         how = model.gov(ev[1])[0] if len(ev) > 1 else "x"
         if how != "explicit" or model.gov(ev[1])[1] not in ("Int", "Str"):
